@@ -217,6 +217,10 @@ func Open(fileName string, opts *Options) (*AppendableFile, error) {
 		if !ok {
 			return nil, ErrCorruptedMetadata
 		}
+		if cf < appendable.NoCompression || cf > appendable.ZLibCompression {
+			f.Close()
+			return nil, ErrCorruptedMetadata
+		}
 		compressionFormat = cf
 
 		cl, ok := m.GetInt(metaCompressionLevel)
@@ -564,7 +568,13 @@ func (aof *AppendableFile) ReadAt(bs []byte, off int64) (n int, err error) {
 		return 0, err
 	}
 
-	cBs := make([]byte, binary.BigEndian.Uint32(clenBs))
+	cLen := int64(binary.BigEndian.Uint32(clenBs))
+	if cLen > aof.offset()-off-4 {
+		// the chunk cannot be larger than what has been written after its length
+		return 0, io.EOF
+	}
+
+	cBs := make([]byte, cLen)
 	_, err = aof.readAt(cBs, off+4)
 	if err != nil {
 		return 0, err
